@@ -588,7 +588,9 @@ func vfCorpusC10() []*vfWorldCase {
 
 func vfGenC11(r *vfRand, id int) *vfWorldCase {
 	cfg := vfWorldCfg{PKCE: r.chance(1, 2), ForceHTTPS: r.chance(1, 2), EndSession: r.chance(2, 3), GraceSec: []int{60, 7200}[r.intn(2)],
-		PostLogout: vfPick(r, "", "/", "/bye", "/bye?x=1", "https://www.example.org/after", "http://other.example/x")}
+		PostLogout: vfPick(r, "", "/", "/bye", "/bye?x=1", "https://www.example.org/after", "http://other.example/x"),
+		// providers with a revocation endpoint, healthy or failing: logging out of the browser must not depend on it
+		Revocation: vfPick(r, "", "", "ok", "fail")}
 	cs := &vfWorldCase{ID: id, Kind: "logout", Script: vfScript{Cfg: cfg, Browsers: 1}}
 	sc := vfOkScript(vfSizedTok(r, vfSizes[r.intn(len(vfSizes))], r.chance(2, 3)))
 	sc.RefreshLen = []int{0, 0, 2600, 9000}[r.intn(4)]
@@ -624,7 +626,10 @@ func vfCorpusC11() []*vfWorldCase {
 	sc.RefreshLen = 5200
 	acts := append(vfLogin(0, 0, "/app", sc), vfLogoutAct(0, 0), vfGated(0, 0, "/app", 1),
 		vfReqAct(0, 0, "GET", "/app", 1, func(q *vfReq) { q.AcceptJS = true }))
-	return []*vfWorldCase{{Kind: "corpus", Script: vfScript{Cfg: vfWorldCfg{EndSession: true, GraceSec: 7200, PostLogout: "/bye"}, Browsers: 1, Actions: acts}}}
+	return []*vfWorldCase{
+		{Kind: "corpus", Script: vfScript{Cfg: vfWorldCfg{EndSession: true, GraceSec: 7200, PostLogout: "/bye"}, Browsers: 1, Actions: acts}},
+		{Kind: "corpus", Script: vfScript{Cfg: vfWorldCfg{EndSession: true, GraceSec: 7200, PostLogout: "/bye", Revocation: "fail"}, Browsers: 1, Actions: acts}},
+	}
 }
 
 // ---------------------------------------------------------------- C15: redirects
